@@ -123,7 +123,9 @@ void harness(void) {
         }
 #endif
         bool mm = false;
-        VERIF_ASSERT(carquet_column_index_page_might_match(b, p, IN.has_qmin ? qmin : 0, IN.has_qmax ? qmax : 0, (int32_t)lq, &mm) == CARQUET_OK, "page_might_match succeeds");
+        /* value_len is documented as "length of value for byte array types": for the fixed-width types a caller may pass the width or 0 */
+        const int32_t vlen = VARLEN ? (int32_t)lq : ((IN.lq & 1) ? 0 : (int32_t)W);
+        VERIF_ASSERT(carquet_column_index_page_might_match(b, p, IN.has_qmin ? qmin : 0, IN.has_qmax ? qmax : 0, vlen, &mm) == CARQUET_OK, "page_might_match succeeds");
         if (x_in_page && x_in_query) VERIF_ASSERT(mm, "a page holding a value inside the query range is reported as might-match");
         if (!S->null_page && !has_min && !has_max) VERIF_ASSERT(mm, "a page without min/max is reported as might-match");
     }
